@@ -1122,7 +1122,7 @@ fn est_panic_sig(inp: &EstInput, what: &str, p: &PanicInfo) -> String {
     }
 }
 
-/// fit + predict through the public API; `Ok(predictions)` or the reason nothing can be checked
+/// an invalid k (0 or > n) must be reported as an error by `fit` or, at the latest, by `predict`
 fn reject_check(c: &mut Case, inp: &EstInput, what: &str, fit_err: bool, predict_err: Option<bool>) {
     let inv = inp.invalid.unwrap_or("");
     let esg = format!("{}/{}/{}", what, inp.algo.name(), inv);
@@ -1381,7 +1381,7 @@ fn knn_classifier(c: &mut Case) {
     let (mut inp, kind) = draw_est(c, true);
     let n = inp.rows.len();
     let pool = [-3.5, -1.0, 0.0, 1.0, 2.0, 2.5, 7.0, 10.0];
-    let nc = c.rng.us(1, 4);
+    let nc = if c.rng.bool(0.1) { 1 } else { c.rng.us(2, 4) };
     let mut perm = c.rng.perm(pool.len());
     perm.truncate(nc);
     let ykind = *c.rng.pick(&["random", "random", "by-first-coordinate", "imbalanced"]);
@@ -1424,6 +1424,7 @@ fn main() {
             "the brute-force oracle evaluates the library's own metric on the same pairs (exact comparison); the harness's closed form cross-checks the reported numbers to 4096 eps (relative)",
             "distances are finite and free of overflow/underflow for the generated magnitudes (|coordinates| <= ~1e6)",
             "estimator oracles accept every valid k-nearest set (all points closer than the k-th distance + any choice among those exactly at it); vote ties within 1e-12 of the total weight and means within 1e-12 max|y| are accepted",
+            "a wrong cover-tree answer that differs from the exact one only by points within 8 eps of the decision boundary (radius / k-th distance) is keyed as '<structure>/find[_radius]-differs-only-within-rounding-of-the-boundary' (rounding in the pruning bound); never for lattice3x3 nor for integer data under Manhattan / Minkowski-1, where all arithmetic is exact",
             "classifier k = 1 is not exercised (the statement names k = 2 as the classifier's smallest k)",
             "lattice3x3 enumerates multisets completely; the insertion order (which the cover tree depends on) is the canonical order plus one seeded permutation",
             "construction panics of the two degenerate classes (covertree/n=1, covertree/all-identical) are reported for their first 3000 occurrences per run and only counted afterwards (the runner keeps at most 20000 violation records)",
